@@ -93,6 +93,22 @@ def decide(prop, tier, res, t0):
     errors.extend(floor_msgs)
 
     known = known_findings()
+    # failures inside an entry point that called something the analysis has no model for, and spec
+    # clauses whose actual value was summarised, are "not decided": no alarm, exit status 2
+    unmod_entries = {e["entry"]: e.get("unmodelled", []) for e in sel if e.get("unmodelled")}
+    undecided = [o for o in obligations if o["status"] == "undecided"]
+    for o in obligations:
+        if o["status"] == "failed" and o.get("entry") in unmod_entries:
+            o["status"] = "undecided"
+            o["detail"] = "entry point calls unmodelled " + ", ".join(unmod_entries[o["entry"]]) + "; " + o.get("detail", "")
+            undecided.append(o)
+    seen_u = set()
+    for o in undecided:
+        k = (o["fn"], o["what"])
+        if k in seen_u:
+            continue
+        seen_u.add(k)
+        errors.append(f"not decided: {o['kind']} {o['what']} in {o['fn']} ({o.get('detail', '')[:160]})")
     failed = [o for o in obligations if o["status"] == "failed"]
     viol_keys = {}
     known_hit = {}
@@ -131,7 +147,7 @@ def decide(prop, tier, res, t0):
             print(f"  goal: {o['goal'][:400]}")
             if o.get("detail"):
                 print(f"  {o['detail'][:500]}")
-        status = 1 if status == 0 else status
+        status = 1      # a violation was found (analysis errors, if any, are printed as well)
     write_evidence(prop, tier, res, sel, obligations, rule_inst, rule_viol, known_hit, viol_keys, errors, wall)
     n_dis = sum(1 for o in obligations if o["status"] in ("discharged", "assumed", "requires"))
     print(f"{prop}: {len(sel)} entry points, {len(obligations)} obligations ({n_dis} discharged/assumed, "
@@ -153,6 +169,10 @@ def floors(prop, res, sel, obligations):
     g = floors_table.GLOBAL
     if inv.get("body_owners", 0) < g["body_owners"]:
         msgs.append(f"body owners {inv.get('body_owners')} < sanity floor {g['body_owners']}")
+    if inv.get("mir_calls_not_in_hir"):
+        m = inv["mir_calls_not_in_hir"][0]
+        msgs.append(f"export incomplete: MIR call edge {m['callee']} in {m['fn']} has no HIR counterpart "
+                    f"({len(inv['mir_calls_not_in_hir'])} such edges)")
     if inv.get("unwrap_expect", 0) < g["unwrap_expect"]:
         msgs.append(f"unwrap/expect sites {inv.get('unwrap_expect')} < sanity floor {g['unwrap_expect']}")
     return msgs
